@@ -32,8 +32,8 @@ CHECKS = {
    "`migrate import` is not driven; third-party directory formats are covered in process only (their file names come from the wall clock); bodies of sum-ignored files and whitespace-only sum edits are immaterial by design and not judged."),
  "C07": ("exploration",
    "bounded-exhaustive enumeration of adversarial strings x slots x change kinds x formatters x indents x delimiters; each plan of the real planners is formatted, read back with the matching reader and dialect scanner and compared with the planned statements",
-   "Plans of the real MySQL/PostgreSQL/SQLite planners over a two-table schema in which one slot (thorough: every pair of slots) of 11 holds each of 22 adversarial strings (quotes, comment markers, delimiters, LF, CR LF, CR, ...), for create/drop/alter/alter-back change sets x 6 formatters x 2 indents x 4 plan delimiters (atlas format): the statements read back with the matching directory reader and the dialect's scanner must equal Plan.Changes[].Cmd in count, order and text, and no text of a comment line may reach a statement.",
-   "The schema shape is fixed (the strings and slots vary); random schemas are not claimed; CLI import is covered by the CLI-driven slice."),
+   "Plans of the real MySQL/PostgreSQL/SQLite planners over a two-table schema in which one slot (thorough: every pair of slots) of 11 holds each of 22 adversarial strings (quotes, comment markers, delimiters, LF, CR LF, CR, ...), for create/drop/alter/alter-back change sets x 6 formatters x 2 indents x 4 plan delimiters (atlas format): the statements read back with the matching directory reader and the dialect's scanner must equal Plan.Changes[].Cmd in count, order and text, and no text of a comment line may reach a statement. The atlas formatter is also exercised through Planner.WriteCheckpoint, and for create plans with at most one adversarial slot the directory written by each third-party formatter is imported by the real `atlas migrate import` and must again yield exactly the planned statements.",
+   "The schema shape is fixed (the strings and slots vary); random schemas are not claimed."),
  "C08": ("exploration",
    "bounded-exhaustive enumeration of all token strings up to a length bound and of all generated well-formed scripts, each scanned by the real Scanner and judged by an independent gap lexer / known split",
    "Every string of <=4 (thorough <=5) tokens over a 27-token alphabet of scanner-relevant fragments (incl. a multi-byte rune and non-ASCII white space) x the 4 option sets the drivers use (plus a T-SQL-like set for totality) is scanned: no panic, no hang, and on success every statement text sits at its reported position, spans are disjoint and increasing, and everything between statements is accepted by a reference gap lexer (white space, comments, delimiter, DELIMITER/GO commands). All scripts of <=2 (thorough <=3) statements from 17 statement shapes x leads/separators/tails x 7 delimiter modes must scan to exactly the intended statements on the intended lines.",
